@@ -93,6 +93,7 @@ type State struct {
 	pend     *Term
 	pendName string
 	spec     bool
+	gcCheck  bool // C14: check that pointer-carrying cells only live in pointer-typed memory
 	pinned   map[string]uint64 // variables fixed by concretization (copy-on-write)
 }
 
@@ -185,6 +186,15 @@ func (st *State) memViolation(msg string) {
 	st.run.report(st, Violation{Kind: "memory-safety", Label: msg})
 	st.status = Failed
 	st.errMsg = "memory-safety: " + msg + st.where()
+	st.run.memEvents.Add(1)
+}
+
+// gcViolation: pointer-carrying data placed where the collector cannot see it.
+func (st *State) gcViolation(msg string) {
+	if st.status != Running || st.spec {
+		return
+	}
+	st.run.report(st, Violation{Kind: "memory-safety", Label: "gc-safety: " + msg})
 	st.run.memEvents.Add(1)
 }
 
